@@ -157,6 +157,25 @@ def range_slice_in_bounds(F, gid, line):
         a, b = lid(fl.get("start")), lid(fl.get("end"))
         if v is None or a is None or b is None or b not in lets:
             return False
+        # second idiom (b105): trimming by search - a = v.iter().position(p).unwrap_or(v.len()),
+        # b = v.iter().rposition(p).map_or(a, |i| i + 1): a <= b <= v.len() (no match at all gives a = b = len; a match at
+        # i gives a <= i < b = i + 1 <= len), provided nothing shortens v
+        def search_on_v(e, which):
+            e = e if isinstance(e, dict) else {}
+            if e.get("k") != "MethodCall" or e.get("method") != which:
+                return False
+            it = e["recv"]
+            return it.get("k") == "MethodCall" and it.get("method") == "iter" and lid(it["recv"]) == v
+        ia, ib = lets.get(a), lets[b]
+        trim = (isinstance(ia, dict) and ia.get("k") == "MethodCall" and ia.get("method") == "unwrap_or" and search_on_v(ia["recv"], "position")
+                and ia.get("args") and len_of(ia["args"][0]) == v
+                and ib.get("k") == "MethodCall" and ib.get("method") == "map_or" and search_on_v(ib["recv"], "rposition")
+                and len(ib.get("args") or []) == 2 and lid(ib["args"][0]) == a and ib["args"][1].get("k") == "Closure"
+                and any(z["k"] == "Binary" and z.get("op") == "Add" and any(w["k"] == "Lit" and str(w.get("v")) == "1" for w in walk(z)) for z in walk(ib["args"][1])))
+        if trim:
+            if any(x["k"] == "MethodCall" and lid(x.get("recv")) == v and x.get("method") in ("truncate", "pop", "clear", "drain", "remove", "swap_remove", "retain", "split_off") for x in walk(tree["body"])):
+                return False
+            continue
         init = lets[b]
         ok_max = False
         if init.get("k") == "Call" and (init.get("callee") or "").endswith("cmp::max") and len(init["args"]) == 2:
